@@ -314,7 +314,9 @@ FixedVArray<T>::getitem (Py_ssize_t index)
 {
     const size_t i = canonical_index (index, _length);
     std::vector<T>& data = _ptr[(_indices ? raw_ptr_index(i) : i) * _stride];
-    return FixedArray<T>(data.empty() ? nullptr : &data[0], data.size(), 1, _writable);
+    // Pass the data handle on, so that copies and masked references of the
+    // row keep the variable array's storage alive, not only the row itself.
+    return FixedArray<T>(data.empty() ? nullptr : &data[0], data.size(), 1, _handle, _writable);
 }
 
 template <class T>
